@@ -13,8 +13,8 @@ fn col(b: &[f64], n: usize, k: usize, c: usize) -> Vec<f64> {
 
 /// The six public entry points on (A, B): returns (name, flat row-major n x k solution or None on panic).
 pub fn entry_points(a: &[f64], b: &[f64], n: usize, k: usize) -> Vec<(&'static str, Option<Vec<f64>>)> {
-    let am = Matrix { data: Vector::new(a.to_vec()), nrows: n, ncols: n };
-    let bm = Matrix { data: Vector::new(b.to_vec()), nrows: n, ncols: k };
+    let am = mk(Vector::new(a.to_vec()), n, n);
+    let bm = mk(Vector::new(b.to_vec()), n, k);
     let assemble = |cols: Vec<Vec<f64>>| -> Vec<f64> { let mut out = vec![0.0; n * k]; for (c, v) in cols.iter().enumerate() { for i in 0..n { out[i * k + c] = v[i]; } } out };
     vec![
         ("solve (slice, per column)", guard(|| assemble((0..k).map(|c| solve(a, &col(b, n, k, c))).collect()))),
@@ -24,7 +24,7 @@ pub fn entry_points(a: &[f64], b: &[f64], n: usize, k: usize) -> Vec<(&'static s
     ]
 }
 pub fn inverse_points(a: &[f64], n: usize) -> Vec<(&'static str, Option<Vec<f64>>)> {
-    let am = Matrix { data: Vector::new(a.to_vec()), nrows: n, ncols: n };
+    let am = mk(Vector::new(a.to_vec()), n, n);
     vec![
         ("invert_matrix (slice)", guard(|| invert_matrix(a))),
         ("Matrix::inv", guard(|| { let r = am.inv(); assert_eq!((r.nrows, r.ncols), (n, n), "shape"); r.data.to_vec() })),
